@@ -56,6 +56,24 @@ RR_SCRIPTS = {
     'deep-rr-112': (dict(rock_ridge='1.12'), [('dir', p, p.rsplit('/', 1)[1].lower() + '-' + 'l' * 40 * (i % 3), None) for i, p in enumerate(DEEP)] +
                     [('dir', DEEP[-1] + '/D9', 'd9', None), ('file', DEEP[-1] + '/D9/X.;1', 'x' * 200, None, 3), ('file', DEEP[-1] + '/Y.;1', 'y', None, 4),
                      ('dir', '/D1/D2/D3/D4/D5/D6/D7/E8', 'e8', None), ('file', '/D1/D2/D3/D4/D5/D6/D7/E8/Z.;1', 'z', None, 5)]),
+    # a chain of 20 directories: relocation is due whenever the REAL level reaches eight - at the 8th component and then every
+    # six components further down (K75: it used to go by the number of components, leaving levels 9 and 10 in between)
+    'deep-rr-20': (dict(rock_ridge='1.09'), [('dir', '/' + '/'.join('D%d' % j for j in range(1, i + 1)), 'd%d' % i, None) for i in range(1, 21)] +
+                   [('file', '/' + '/'.join('D%d' % j for j in range(1, 21)) + '/F.;1', 'f', None, 5),
+                    ('file', '/' + '/'.join('D%d' % j for j in range(1, 15)) + '/G.;1', 'g' * 150, None, 2049),
+                    ('symlink', '/' + '/'.join('D%d' % j for j in range(1, 16)) + '/S.;1', 's', '../../x')]),
+    # the holding directory RR_MOVED goes away with its last relocated directory and has to come back for the next one - on the
+    # object that built the image (K76) and on one that opened it (K78: parsing remembered the wrong record as the holding directory)
+    'deep-rr-remove-readd': (dict(rock_ridge='1.09'), [('dir', p, p.rsplit('/', 1)[1].lower(), None) for p in DEEP[:7]] +
+                             [('dir', DEEP[6] + '/X8', 'x8', None), ('rm_dir', DEEP[6] + '/X8', None), ('dir', DEEP[6] + '/Y8', 'y8-' + 'l' * 200, None),
+                              ('file', DEEP[6] + '/Y8/F.;1', 'f', None, 5), ('reopen',), ('rm_file', DEEP[6] + '/Y8/F.;1', None), ('rm_dir', DEEP[6] + '/Y8', None),
+                              ('dir', DEEP[6] + '/Z8', 'z8', None), ('file', DEEP[6] + '/Z8/G.;1', 'g', None, 2049), ('dir', DEEP[6] + '/W8', 'w8', None), ('reopen',),
+                              ('dir', DEEP[6] + '/V8', 'v8', None), ('file', DEEP[6] + '/V8/H.;1', 'h', None, 3)]),
+    # names that existed are used again, in every namespace (K77: a removed entry stayed in the list sorted by Rock Ridge name)
+    'rr-joliet-name-reuse': (dict(rock_ridge='1.09', joliet=3), [('file', '/A.;1', 'foo', '/foo', 5), ('dir', '/D', 'dir', '/dir'), ('file', '/D/B.;1', 'bar', '/dir/bar', 3),
+                                                                  ('rm_file', '/A.;1', '/foo'), ('file', '/C.;1', 'foo', '/foo', 7), ('rm_file', '/D/B.;1', '/dir/bar'), ('rm_dir', '/D', '/dir'),
+                                                                  ('dir', '/D', 'dir', '/dir'), ('file', '/D/B.;1', 'bar', '/dir/bar', 2049), ('reopen',), ('rm_file', '/C.;1', '/foo'),
+                                                                  ('file', '/A.;1', 'foo', '/foo', 4), ('symlink', '/S.;1', 'lnk', 'foo'), ('rm_file', '/S.;1', None), ('symlink', '/T.;1', 'lnk', 'dir/bar')]),
     # names and targets that fill one continuation block almost completely (beyond that they are refused: K73)
     'rr-one-block-limit': (dict(rock_ridge='1.09'), [('file', '/A.;1', 'a' * 2100, None, 5), ('symlink', '/S.;1', 's', 't' * 2080), ('dir', '/D', 'd' * 2000, None),
                                                      ('file', '/D/B.;1', 'b' * 1000, None, 2049), ('symlink', '/D/T.;1', 'n' * 1000, 'u' * 1000)]),
@@ -114,13 +132,14 @@ def random_script(flavour, seed, nops=28, reopen_every=0):
     reopened = [False]
     kw = FLAVOURS[flavour] if flavour in FLAVOURS else FLAVOURS_X[flavour]
     rr, jol, udf = 'rock_ridge' in kw, 'joliet' in kw, 'udf' in kw
-    maxdepth = 10 if rr else 6
+    maxdepth = (18 if nops >= 100 else 10) if rr else 6      # long Rock Ridge histories go deep enough for a second relocation
     dirs = {'': ('', '', '')}        # iso dir path -> (rr name of the dir itself, joliet path, udf path)
     files = {}                       # iso path -> dict(j=[joliet paths], cid, links=[other iso paths])
     contents = 0
     symlinks = []
     jonly = []
     ops = []
+    gone_files, gone_dirs = {}, {}   # parent directory -> names of removed entries, to be used again (C13: names that existed)
     counter = [0]
 
     def fresh():
@@ -147,12 +166,23 @@ def random_script(flavour, seed, nops=28, reopen_every=0):
         tail = ''.join(rnd.choice(alphabet) for _ in range(rnd.choice([0, 3, 20, 100]) if rnd.random() < 0.4 else rnd.randint(0, 12)))
         return ('u%d' % k + tail)[:120].rstrip(' ')
 
+    class _Deep(list):
+        """the possible parents; long Rock Ridge histories often go for the deepest one, so that chains reach the second relocation"""
+
+    _choice = rnd.choice
+
+    def choice(seq):
+        if isinstance(seq, _Deep) and rr and nops >= 100 and rnd.random() < 0.4:
+            return max(sorted(seq), key=lambda d: d.count('/'))
+        return _choice(seq)
+    rnd.choice = choice
+
     for _i in range(nops):
         if reopen_every and _i and _i % reopen_every == 0:
             ops.append(('reopen',))
             reopened[0] = True
         r = rnd.random()
-        parents = [d for d in dirs if d.count('/') < maxdepth - 1]
+        parents = _Deep(d for d in dirs if d.count('/') < maxdepth - 1)
         if jol and r < 0.04:
             # a file that exists in the Joliet tree only
             d = rnd.choice(parents)
@@ -168,8 +198,11 @@ def random_script(flavour, seed, nops=28, reopen_every=0):
             rn = rrname(k) if rr else None
             jp = (dirs[d][1] + '/' + jname(k)) if (jol and rnd.random() < 0.8) else None
             up = (dirs[d][2] + '/' + uname(k)) if (udf and rnd.random() < 0.85) else None
+            if gone_files.get(d) and rnd.random() < 0.4:
+                # the names of a file that was removed from this directory are used again (in every namespace)
+                ip, rn, jp, up = gone_files[d].pop()
             ops.append(('file', ip, rn, jp, size) + (({'udf_path': up},) if up else ()))
-            files[ip] = dict(j=[jp] if jp else [], cid=contents, links=[], size=size, u=up)
+            files[ip] = dict(j=[jp] if jp else [], cid=contents, links=[], size=size, u=up, names=(ip, rn, jp, up))
             contents += 1
         elif r < 0.55:
             d = rnd.choice(parents)
@@ -178,6 +211,8 @@ def random_script(flavour, seed, nops=28, reopen_every=0):
             rn = rrname(k) if rr else None
             jp = (dirs[d][1] + '/' + jname(k)) if jol else None
             up = (dirs[d][2] + '/' + uname(k)) if udf else None
+            if gone_dirs.get(d) and rnd.random() < 0.4:
+                ip, rn, jp, up = gone_dirs[d].pop()            # a removed directory comes back under its old names
             ops.append(('dir', ip, rn, jp) + (({'udf_path': up},) if up else ()))
             dirs[ip] = (rn, jp or '', up or '')
         elif r < 0.67:
@@ -186,6 +221,8 @@ def random_script(flavour, seed, nops=28, reopen_every=0):
                 continue
             ip = rnd.choice(removable)
             f = files.pop(ip)
+            if f.get('names') and len(f['j']) <= 1:
+                gone_files.setdefault(ip.rsplit('/', 1)[0], []).append(f['names'])
             # rm_file removes every name of that content
             ops.append(('rm_file', ip, f['j'][0] if f['j'] else None) + ((f['u'],) if f.get('u') else ()))
             for other in [p for p, g in files.items() if g['cid'] == f['cid']]:
@@ -198,6 +235,9 @@ def random_script(flavour, seed, nops=28, reopen_every=0):
                 continue
             d = rnd.choice(empties)
             ops.append(('rm_dir', d, dirs[d][1] or None) + ((dirs[d][2],) if dirs[d][2] else ()))
+            gone_dirs.setdefault(d.rsplit('/', 1)[0], []).append((d, dirs[d][0], dirs[d][1] or None, dirs[d][2] or None))
+            gone_files.pop(d, None)
+            gone_dirs.pop(d, None)
             dirs.pop(d)
         elif r < 0.85:
             src = rnd.choice(sorted(files))
@@ -332,13 +372,16 @@ def model_of(script):
                     for k in [k for k, v in d.items() if v == gone]:
                         d.pop(k)
                         rr.pop(k, None)
+                        hidden.discard(k)
             iso.pop(op[1], None)
             rr.pop(op[1], None)
+            hidden.discard(op[1])              # the name may come back; the flag does not
             if op[2]:
                 jol.pop(op[2], None)
         elif op[0] == 'rm_dir':
             iso.pop(op[1], None)
             rr.pop(op[1], None)
+            hidden.discard(op[1])
             if op[2]:
                 jol.pop(op[2], None)
         elif op[0] == 'link':
@@ -348,6 +391,7 @@ def model_of(script):
         elif op[0] == 'rm_link':
             iso.pop(op[1], None)
             rr.pop(op[1], None)
+            hidden.discard(op[1])
         elif op[0] == 'jfile':
             cid = len(content)
             content[cid] = op[2]
@@ -995,6 +1039,7 @@ def random_udf_script(seed, nops=24, rr=False, reopen_every=0):
     links = []
     uonly = []              # UDF paths without an ISO9660 name of their own
     ops = []
+    gone = {}               # directory -> (iso path, udf path) of removed files, to be used again
     k = 0
     alphabet = ['a', 'B', '-', ' ', '\u00e9', '\u4e2d', '_']
     for _i in range(nops):
@@ -1010,6 +1055,8 @@ def random_udf_script(seed, nops=24, rr=False, reopen_every=0):
             d = rnd.choice(parents)
             ip = '%s/F%d.;1' % (d, k)
             up = dirs[d] + '/' + uname
+            if gone.get(d) and rnd.random() < 0.4:
+                ip, up = gone[d].pop()                      # the names of a removed file are used again
             ops.append(('file', ip, up, rnd.choice([0, 1, 2047, 2048, 2049, 4096, 6000])))
             files[ip] = up
             sizes[ip] = ops[-1][3]
@@ -1026,6 +1073,7 @@ def random_udf_script(seed, nops=24, rr=False, reopen_every=0):
             ip = rnd.choice(removable)
             up = files.pop(ip)
             ops.append(('rm_file', ip, up))
+            gone.setdefault(ip.rsplit('/', 1)[0], []).append((ip, up))
             for o in [o for o in ops if o[0] == 'ulink' and o[1] == up and o[2] in uonly]:
                 uonly.remove(o[2])
         elif r < 0.9:
@@ -1033,6 +1081,7 @@ def random_udf_script(seed, nops=24, rr=False, reopen_every=0):
                        and not any(u.startswith(dirs[d] + '/') for u in uonly)]
             if empties:
                 d = rnd.choice(empties)
+                gone.pop(d, None)
                 ops.append(('rm_dir', d, dirs.pop(d)))
         elif rr and r < 0.95:
             d = rnd.choice(parents)
@@ -1244,11 +1293,12 @@ class MasteredUDF(Base):
             im2, res = R.read_iso(img)
             tree = R.logical_tree(im2, res['root'])
             same = []
-            for op in script:
-                if op[0] == 'file' and op[2] in model and op[3] > 0:
+            latest = {op[2]: op for op in script if op[0] == 'file'}       # names may be used again: the last file given a UDF path
+            for op in latest.values():
+                if op[2] in model and op[3] > 0:
                     t = tree.get(op[1].encode())
                     f = u.files.get(op[2])
-                    if t and f:
+                    if t and f and f['extents']:
                         same.append(t[1][0][0] == f['extents'][0][0])
             cl['udf-and-iso9660-names-share-their-data-sectors'] = all(same)
             cl['iso9660-side-structurally-valid'] = not im2.problems
